@@ -1016,6 +1016,39 @@ def rule_scalei(repo):
     return res
 
 
+@guarded
+def rule_once(repo):
+    """modjac / modjacrev / modjacfwd differentiate the model: they hand a closure that calls it to the differentiation routine and never evaluate the model
+    themselves.  An extra forward pass (a NaN probe, a shape check, a logged output) runs a stateful model twice per call - a clock, a sampler, a data cursor in
+    the model advances, and the Jacobian that comes back belongs to the step after the one the caller asked for."""
+    res = RuleResult('C04.ONCE', 'pypose.optim.functional: the model is evaluated only inside the closure handed to jacobian / jacrev / jacfwd - no direct call of the '
+                     'model, of functional_call or of the closure in the body of modjac / modjacrev / modjacfwd', floor=3)
+    mod = repo.module('pypose.optim.functional')
+    for q in ('modjac', 'modjacrev', 'modjacfwd'):
+        f = mod.functions.get(q)
+        if f is None:
+            raise AnalysisError('C04.ONCE: %s not found' % q)
+        nested = {n.name for n in ast.walk(f.node) if isinstance(n, ast.FunctionDef) and n is not f.node}
+        partials = {a.targets[0].id for a in ast.walk(f.node) if isinstance(a, ast.Assign) and len(a.targets) == 1 and isinstance(a.targets[0], ast.Name) and
+                    isinstance(a.value, ast.Call) and dotted(a.value.func) in ('partial', 'functools.partial')}
+        callers = nested | partials | {'model', 'functional_call', 'func'}
+        hits = []
+        stack = list(f.node.body)
+        while stack:
+            n = stack.pop()
+            if isinstance(n, (ast.FunctionDef, ast.AsyncFunctionDef, ast.Lambda, ast.ClassDef)):
+                continue
+            if isinstance(n, ast.Call) and isinstance(n.func, ast.Name) and n.func.id in callers:
+                hits.append(n)
+            stack.extend(ast.iter_child_nodes(n))
+        res.inst({'function': f.fq, 'closures': sorted(nested | partials), 'direct evaluations of the model': [src(c)[:50] for c in hits]}, f.fq)
+        for c in hits:
+            res.add(Finding('C04.ONCE', f, '`%s` evaluates the model in the body of %s, outside the differentiation: a model with internal state (a clock advanced per '
+                            'call, a sampler) is stepped twice, the Jacobian returned is the one of the NEXT state' % (src(c)[:50], q), node=c,
+                            construct='extra forward pass|' + q))
+    return res
+
+
 def rules(repo, tier):
     from ..memo import rule_memo
     from ..optional import rule_optional
@@ -1023,7 +1056,7 @@ def rules(repo, tier):
     from ..callsig import rule_callsig
     from ..docsig import rule_docsig
     from ..axisdefault import rule_axisdefault
-    return list(_rules_core(repo, tier)) + [__import__('sa.rules.c03', fromlist=['x']).rule_homo(repo, 'C04.HOMO'), rule_scalei(repo), rule_memo(repo, 'C04.MEMO', 'history independence: nothing computed from the contents of a tensor argument is kept '
+    return list(_rules_core(repo, tier)) + [__import__('sa.rules.c03', fromlist=['x']).rule_homo(repo, 'C04.HOMO'), rule_scalei(repo), rule_once(repo), rule_memo(repo, 'C04.MEMO', 'history independence: nothing computed from the contents of a tensor argument is kept '
                                                       'under the identity, address or version of that tensor, in module-level storage, or published from a generator '
                                                       'before it is complete - a later call with the same object and other contents must not be answered from it',
                                                       ['pypose.lietensor.lietensor', 'pypose.lietensor.operation', 'pypose.lietensor.basics', 'pypose.lietensor.utils'], floor=3),
